@@ -84,6 +84,8 @@ def impl(case):
         g = make(spec)
         out.update(answers(g, ps))
         out["tbl"] = table_wire(g)
+        g.clean()                      # cleaning again changes nothing a user can see
+        out["re"] = answers(g, ps)
         return out
     if kind == "product":
         spec1, spec2, progs = case["data"]
@@ -96,6 +98,8 @@ def impl(case):
         out.update(answers(g, ps))
         out["tbl"] = table_wire(g)
         out["start"] = nt_wire(g.start)
+        g.clean()
+        out["re"] = answers(g, ps)
         return out
     if kind == "clean":
         table, start, progs = case["data"]
